@@ -22,7 +22,7 @@ class Contract(object):
                asserts='prove', serves=(), mode='vc', spec=None, ghost=None,
                abstract=False, returns=None, locals_=None, assumes=(), lemmas=(),
                exc_ensures=None, opaque_preserves=(), relate=None, note='', source=None, opaque_requires=(), private=(), exit_lemmas=(), opaque_builtins=(),
-               in_module=None):
+               in_module=None, target=None, calls=None):
     self.name = name
     self.types = dict(types or {})
     self.requires = list(requires)
@@ -49,6 +49,8 @@ class Contract(object):
     self.note = note
     self.source = source        # ghost code (lemma): lives in the sidecar, not in /repo
     self.in_module = in_module
+    self.target = target        # several contracts (cases) for one function: name = target + '#case'
+    self.calls = dict(calls or {})   # callee path -> name of the contract (case) to use at calls made here
     self.opaque_requires = list(opaque_requires)
     self.exit_lemmas = list(exit_lemmas)   # trusted mathematical facts assumed at exit (listed in evidence)
     self.opaque_builtins = set(opaque_builtins)   # builtins treated as observable events (event mode)
@@ -59,7 +61,7 @@ class Contract(object):
     if self.in_module:
       return self.in_module
     # longest prefix that is a module file
-    parts = self.name.split('.')
+    parts = (self.target or self.name).split('.')
     for i in range(len(parts), 0, -1):
       p = os.path.join(REPO, *parts[:i]) + '.py'
       if os.path.exists(p):
@@ -70,7 +72,7 @@ class Contract(object):
   def local_name(self):
     if self.source:
       return self.name
-    return self.name[len(self.module) + 1:]
+    return (self.target or self.name)[len(self.module) + 1:]
 
 
 class ClassInfo(object):
